@@ -5,6 +5,7 @@ import (
 	"fmt"
 	"os"
 	"path/filepath"
+	"strings"
 	"testing"
 
 	"github.com/itchio/lake/tlc"
@@ -26,6 +27,36 @@ func signTree(t Tree, dir string) *pwr.SignatureInfo {
 // parents included), block hashes only depend on the order of files.
 func shuffleDirs(si *pwr.SignatureInfo, seed uint64) {
 	r := NewRng(seed)
+	if r.Intn(2) == 0 {
+		// directories that are implied by the entries below them need not be listed at all
+		// (containers walked from a zip archive only list the directories the archive has entries
+		// for, plus direct parents)
+		implied := func(p string) bool {
+			pre := p + "/"
+			for _, f := range si.Container.Files {
+				if strings.HasPrefix(f.Path, pre) {
+					return true
+				}
+			}
+			for _, f := range si.Container.Symlinks {
+				if strings.HasPrefix(f.Path, pre) {
+					return true
+				}
+			}
+			return false
+		}
+		var kept []*tlc.Dir
+		dropped := 0
+		for _, dir := range si.Container.Dirs {
+			if implied(dir.Path) && r.Intn(2) == 0 {
+				dropped++
+				continue
+			}
+			kept = append(kept, dir)
+		}
+		si.Container.Dirs = kept
+		Ev.ProbeIf(dropped > 0, "container_omits_directories_implied_by_their_entries")
+	}
 	d := si.Container.Dirs
 	for i := len(d) - 1; i > 0; i-- {
 		j := r.Intn(i + 1)
